@@ -235,6 +235,17 @@ impl P {
                             }
                         }
                     }
+                    // variant syntax of metadata (`rect {...}`, `strip {...}`, `objname {pos: ...}`): an
+                    // object whose first field records the variant's name
+                    if matches!(self.peek(), Some(Tok::P('{'))) {
+                        return match self.value()? {
+                            Val::Obj(mut fields) => {
+                                fields.insert(0, ("variant-name".to_string(), Val::Ident(name)));
+                                Ok(Val::Obj(fields))
+                            }
+                            other => Ok(other),
+                        };
+                    }
                     Ok(Val::Ident(name))
                 }
             },
@@ -713,6 +724,21 @@ const INTS: [i64; 14] = [0, 1, -1, 255, 256, 32767, 32768, 65535, 65536, -32768,
 const STRLENS: [usize; 14] = [0, 1, 3, 4, 5, 100, 250, 251, 252, 253, 255, 256, 300, 1000];
 const DIFFS: [&str; 8] = ["0", "1", "2", "3", "01", "23", "012", "123"];
 
+/// 0-2 quads of an STD object: rects everywhere, strips (type 1, TH08/09 only) where allowed; every
+/// float may be negative
+fn std_quads(r: &mut Rng, strips: bool) -> String {
+    let mut out = vec![];
+    for k in 0..r.range(if strips { 1 } else { 0 }, 2) {
+        let script = *r.pick(&[0i64, 1, 255, 65535]);
+        if strips && (k == 0 || r.chance(1, 2)) {
+            out.push(format!("strip {{anm_script: {}, start: [{}, {}, {}], end: [{}, {}, {}], width: {}}}", script, float_lit(r), float_lit(r), float_lit(r), float_lit(r), float_lit(r), float_lit(r), float_lit(r)));
+        } else {
+            out.push(format!("rect {{anm_script: {}, pos: [{}, {}, {}], size: [{}, {}]}}", script, float_lit(r), float_lit(r), float_lit(r), float_lit(r), float_lit(r)));
+        }
+    }
+    out.join(", ")
+}
+
 fn float_lit(r: &mut Rng) -> String {
     // dyadic rationals and a few large / small magnitudes, all exactly representable and printed
     // without an exponent
@@ -911,10 +937,10 @@ fn gen_program(p: &Prof, r: &mut Rng) -> (String, String) {
         }
         "trustd" => {
             if p.game == "th08" {
-                src.push_str(&format!("meta {{\n    unknown: {},\n    stage_name: \"dm\",\n    bgm: [\n        {{path: \"bgm/a.mid\", name: \"dm\"}},\n        {{path: \"bgm/b.mid\", name: \"dm\"}},\n        {{path: \" \", name: \" \"}},\n        {{path: \" \", name: \" \"}},\n    ],\n    objects: {{}},\n    instances: [],\n}}\n", r.pick(&[0i64, 1, 65536, 2147483647])));
+                src.push_str(&format!("meta {{\n    unknown: {},\n    stage_name: \"dm\",\n    bgm: [\n        {{path: \"bgm/a.mid\", name: \"dm\"}},\n        {{path: \"bgm/b.mid\", name: \"dm\"}},\n        {{path: \" \", name: \" \"}},\n        {{path: \" \", name: \" \"}},\n    ],\n    objects: {{\n        thing: {{\n            layer: {},\n            pos: [{}, {}, {}],\n            size: [{}, {}, {}],\n            quads: [{}],\n        }},\n    }},\n    instances: [{}],\n}}\n", r.pick(&[0i64, 1, 65536, 2147483647]), r.pick(&[0i64, 4, 255, 65535]), float_lit(r), float_lit(r), float_lit(r), float_lit(r), float_lit(r), float_lit(r), std_quads(r, true), if r.chance(1, 2) { format!("thing {{pos: [{}, {}, {}]}}", float_lit(r), float_lit(r), float_lit(r)) } else { String::new() }));
             } else {
                 src.push_str(&format!(
-                    "meta {{\n    unknown: {},\n    anm_path: \"stage01.anm\",\n    objects: {{\n        thing: {{\n            layer: {},\n            pos: [{}, {}, {}],\n            size: [{}, {}, {}],\n            quads: [],\n        }},\n    }},\n    instances: [],\n}}\n",
+                    "meta {{\n    unknown: {},\n    anm_path: \"stage01.anm\",\n    objects: {{\n        thing: {{\n            layer: {},\n            pos: [{}, {}, {}],\n            size: [{}, {}, {}],\n            quads: [{}],\n        }},\n    }},\n    instances: [],\n}}\n",
                     r.pick(&[0i64, 1, 65536, 2147483647]),
                     if wild { *r.pick(&[0i64, 4, 255, 256, 65535, 65536]) } else { *r.pick(&[0i64, 4, 255, 256, 65535]) },
                     float_lit(r),
@@ -922,7 +948,8 @@ fn gen_program(p: &Prof, r: &mut Rng) -> (String, String) {
                     float_lit(r),
                     float_lit(r),
                     float_lit(r),
-                    float_lit(r)
+                    float_lit(r),
+                    std_quads(r, false)
                 ));
             }
             src.push_str(&format!("script main {{\n{}}}\n", body(r)));
